@@ -21,3 +21,4 @@ def run(ck):
     sampling.r15_mask_stride_follows_pipeline(ck, P, 'C01-R9')
     floatmask.r11_blend_degrees(ck, P)
     sampling.r16_skip_only_on_zero_mask_word(ck, P)
+    floatmask.r11b_blend_degrees_8bit(ck, P)
